@@ -2,7 +2,7 @@
    Model: C05/Model.v (mirrors src/ircmsgs.py).  Proofs: Lemmas.v, Roundtrip.v. *)
 From Coq Require Import List NArith.
 Import ListNotations.
-Require Import Base.Wire Base.PyStr C05.Model C05.Lemmas C05.Roundtrip C05.Hostmask.
+Require Import Base.Wire Base.PyStr C05.Model C05.Lemmas C05.Roundtrip C05.Hostmask C05.ParseMsg.
 
 (* Tag values survive escaping and unescaping unchanged, for every string. *)
 Theorem C05_tag_value_roundtrip : forall v, unescape (escape v) = v.
@@ -106,3 +106,36 @@ Theorem C05_reserialize :
   forall s, str_of_parsed s = s \/ (str_of_parsed s = s ++ [LF] /\ endswith1 LF s = false).
 Proof. intro s. unfold str_of_parsed. destruct (endswith1 LF s); auto. Qed.
 Print Assumptions C05_reserialize.
+
+(* ---- the receive path: drivers.parseMsg = strip(), then IrcMsg ---- *)
+
+(* the parser does not look at the terminator: a line without CR LF parses as the line with it *)
+Theorem C05_parse_terminator :
+  forall vt b, b <> [] -> endswith1 LF b = false -> parse vt b = parse vt (b ++ crlf).
+Proof. exact parse_terminator. Qed.
+Print Assumptions C05_parse_terminator.
+
+(* totality on the receive path: None (blank line), a message, or MalformedIrcMsg *)
+Theorem C05_parsemsg_total :
+  forall vt s, (exists o, parse_msg vt s = Ok o) \/ parse_msg vt s = Raise MalformedIrcMsg.
+Proof. exact parse_msg_total. Qed.
+Print Assumptions C05_parsemsg_total.
+
+(* the round trip on the receive path, for every well-formed message whose line loses nothing but its CR LF to
+   strip() (no whitespace at the very end of the last argument -- or of the command when there is none -- and
+   none at the very start) *)
+Theorem C05_parsemsg_serialize_on_domain :
+  forall vt m, wf vt m = true -> strips_only_crlf m = true ->
+  exists f, parse_msg vt (serialize m) = Ok (Some f) /\ f_msg f = norm m.
+Proof. exact parse_msg_serialize. Qed.
+Print Assumptions C05_parsemsg_serialize_on_domain.
+
+(* outside that domain it fails (finding C05.F32): PRIVMSG #c :"hi " round-trips through IrcMsg but is received
+   by drivers.parseMsg as "hi" *)
+Theorem C05_parsemsg_roundtrip_refuted :
+  forall vt, wf vt witness_trailing_space = true /\ strips_only_crlf witness_trailing_space = false /\
+  parse vt (serialize witness_trailing_space) = Ok (norm witness_trailing_space) /\
+  exists f, parse_msg vt (serialize witness_trailing_space) = Ok (Some f) /\
+            m_args (f_msg f) = [[35; 99]; [104; 105]]%N.
+Proof. exact parse_msg_roundtrip_refuted. Qed.
+Print Assumptions C05_parsemsg_roundtrip_refuted.
